@@ -33,7 +33,7 @@ structure ColDef where
   name : String
   typ : String := ""            -- type text as printed ("" when the column has no type)
   opts : List Opt := []
-  stripPk : Bool := false       -- MODIFY COLUMN: the first " PRIMARY KEY" is cut out of the rendered definition
+  stripPk : Bool := false       -- MODIFY COLUMN of a column that is a key on both sides: the PRIMARY KEY option is not printed
   deriving DecidableEq, Repr, Inhabited
 
 inductive AddPos | none | first | after (c : String)
